@@ -262,16 +262,18 @@ def doRadius (hdr : List Nat) (body : String) : String :=
     | (none, _) => "bad-op"
   | _ => "bad-op"
 
-/-- `scan tol b0 m0 r0 | m r m r ...` : `set_best_index`; answer `best tolSwitches` -/
+/-- `scan c b0 m0 r0 | m r m r ...` : `set_best_index` with the tolerance `c max(|m|, 1)` of the current best merit `m`
+(`c = 10 eps max(n, npt)`); answer `best tolSwitches slack` -/
 def doScan (hdr vals : List Nat) : String :=
   match hdr with
-  | [tol, b0, m0, r0] =>
+  | [c, b0, m0, r0] =>
     let rec pairs : List Nat → Option (List (Float × Float))
       | [] => some []
       | [_] => none
       | a :: b :: t => (pairs t).map ((fl a, fl b) :: ·)
+    let tolOf : Float → Float := fun m => fl c * (if Float.abs m < 1.0 then 1.0 else Float.abs m)
     match pairs vals with
-    | some pts => let S := setBestIndex (fl tol) b0 pts (fl m0) (fl r0); s!"{S.best} {S.tolSwitches}"
+    | some pts => let S := setBestIndex tolOf b0 pts (fl m0) (fl r0); s!"{S.best} {S.tolSwitches} {bits S.slack}"
     | none => "bad-op"
   | _ => "bad-op"
 
